@@ -1,6 +1,327 @@
-/- Line-protocol driver for engine `threads` — not built yet (stub). -/
+/-
+  Line-protocol driver for engine `threads` (C14) — judge mode.
+
+  Input:   <case> ==> <observation>      (syntax of both: harness/src/engines/threads.rs, cfg/C14.py)
+  Answer:  ok ## …                       no call failed for internal reasons, `MT.checkSerialSI` accepts the observation
+                                         (a linearisation of the observed calls — thread order and ticket order kept — on
+                                         which the MVCC model gives every observed answer and the observed final contents),
+                                         and, when the case is conflict-free, `MT.checkSerial` certifies a serial order
+           bad hang | bad panic | bad internal-error <call> | bad not-serialisable | bad not-serial | bad malformed-observation
+  Flags:   none (findings of this engine are attributed by region, see known_findings.d/C14.json)
+-/
+import AxVerif.Model.Serial
+import AxVerif.Driver.Hist
+namespace AxVerif.Db.ThreadsDrv
+open AxVerif AxVerif.Db AxVerif.Db.Drv AxVerif.Db.MT
+
+inductive COp where
+  | begin | commit | rollback | flush
+  | exec (st : Stmt)
+  | auto (st : Stmt)
+  /-- `db subq <table>`: a statement the engine does not support; it must fail (class `other`) and has no effect -/
+  | subq (table : String)
+  deriving Repr
+
+structure Fill where
+  table : String
+  n : Nat
+  pad : Nat
+
+structure TSetup where
+  base : Setup := {}
+  fills : List Fill := []
+
+def parseNat (s : String) : Option Nat :=
+  match parseInt s with
+  | some (.ofNat n) => some n
+  | _ => none
+
+def parseTSetup : List String → List String → List Fill → Option TSetup
+  | [], hw, fs =>
+    match parseSetup hw.reverse {} with
+    | some b => if b.fresh then none else some ⟨b, fs.reverse⟩
+    | none => none
+  | w :: ws, hw, fs =>
+    if w.startsWith "cache=" || w.startsWith "pool=" || w.startsWith "pace=" then
+      match parseNat (w.drop (if w.startsWith "cache=" then 6 else 5)).toString with
+      | some _ => parseTSetup ws hw fs
+      | none => none
+    else if w.startsWith "con=" then none
+    else if w.startsWith "fill=" then
+      match (w.drop 5).toString.splitOn ":" with
+      | [t, n, pad] =>
+        match parseNat n, parseNat pad with
+        | some n, some pad => if n ≤ 5000 && pad ≤ 2000 then parseTSetup ws hw (⟨t, n, pad⟩ :: fs) else none
+        | _, _ => none
+      | _ => none
+    else parseTSetup ws (w :: hw) fs
+
+def threadId (s : String) : Option Nat :=
+  match s.toList with
+  | 't' :: ds =>
+    match parseNat (String.ofList ds) with
+    | some n => if n = 0 || n > 16 then none else some n
+    | none => none
+  | _ => none
+
+def parseCOp : List String → Option COp
+  | ["begin"] => some .begin
+  | ["commit"] => some .commit
+  | ["rollback"] => some .rollback
+  | ["flush"] => some .flush
+  | "db" :: "batch" :: _ => none
+  | ["db", "subq", t] => if ident t then some (.subq t) else none
+  | "db" :: rest => (parseStmt rest).map COp.auto
+  | rest => (parseStmt rest).map COp.exec
+
+def parseTOp (s : String) : Option (Nat × COp) :=
+  match words s with
+  | t :: rest =>
+    match threadId t, parseCOp rest with
+    | some i, some o => some (i, o)
+    | _, _ => none
+  | [] => none
+
+def parseCase (line : String) : Option (TSetup × List (Nat × COp)) :=
+  let line := line.trimAscii.toString
+  if !line.startsWith "threads " then none
+  else match (line.drop 8).toString.splitOn "|" with
+    | [setup, ops] =>
+      match parseTSetup (words setup) [] [] with
+      | none => none
+      | some st =>
+        let fillsOk := st.fills.all (fun f =>
+          match st.base.tables.find? (fun t => t.name == f.table) with
+          | some t => t.cols.map (·.ty) == [ColType.big, ColType.int, ColType.text]
+          | none => false)
+        if !fillsOk || st.base.tables.any (fun t => !t.uniques.isEmpty) then none
+        else
+          let ops := ops.trimAscii.toString
+          if ops.isEmpty then some (st, [])
+          else (allSome ((ops.splitOn " ; ").map parseTOp)).map (fun os => (st, os))
+    | _ => none
+
+/-! ### rendering (as the harness renders: rows sorted, long pad texts abbreviated) -/
+
+def showValA : Val → String
+  | .int n => toString n
+  | .null => "null"
+  | .text s =>
+    match s.toList with
+    | c :: cs => if s.length > 8 && cs.all (· == c) then s!"'{c}*{s.length}'" else "'" ++ s ++ "'"
+    | [] => "''"
+
+def showRowsA (rs : List (List Val)) : String :=
+  "[" ++ joinWith ";" (sortStrings (rs.map (fun r => joinWith "," (r.map showValA)))) ++ "]"
+
+def showSA : SOut → String
+  | .okN n => s!"ok{n}"
+  | .rows rs => showRowsA rs
+  | .err e => showErr e
+
+def showOutA : Out → String
+  | .ok => "ok"
+  | .stmt o => showSA o
+  | .refused e => showErr e
+  | .noSession => "nosession"
+  | .batchErr e => "batch-" ++ showErr e
+  | .batch outs => "batch(" ++ joinWith " " (outs.map showSA) ++ ")"
+  | .none => "-"
+
+/-! ### observation -/
+
+structure OCall where
+  thread : Nat
+  t0 : Nat
+  t1 : Nat
+  out : String
+
+def parseOCall (w : String) : Option OCall :=
+  match w.splitOn ":" with
+  | [t, a, b, o] =>
+    match threadId t, parseNat a, parseNat b with
+    | some i, some a, some b => some ⟨i, a, b, o⟩
+    | _, _, _ => none
+  | _ => none
+
+def isErrTok (s : String) : Bool :=
+  s = "conflict" || s = "constraint" || s = "notfound" || s = "type" || s = "other"
+
+/-- outcome classes that no statement of a well-formed case may produce: the call failed for internal reasons -/
+def isInternal (s : String) : Bool :=
+  s = "notfound" || s = "type" || s = "other" || s = "ddl" || s.startsWith "?"
+
+def fillRows (f : Fill) : List (List (List Val)) :=
+  let pad := String.ofList (List.replicate f.pad 'x')
+  let rec go (i : Nat) (fuel : Nat) (cur : List (List Val)) (acc : List (List (List Val))) : List (List (List Val)) :=
+    match fuel with
+    | 0 => (if cur.isEmpty then acc else cur.reverse :: acc).reverse
+    | fuel + 1 =>
+      let row := [Val.int (1000 + i), Val.int i, Val.text pad]
+      let cur := row :: cur
+      if cur.length = 20 then go (i + 1) fuel [] (cur.reverse :: acc) else go (i + 1) fuel cur acc
+  go 1 f.n [] []
+
+def setupOpsT (st : TSetup) : List Op :=
+  setupOps st.base ++ (st.fills.map (fun f => (fillRows f).map (fun rows => Op.auto (.ins f.table rows)))).flatten
+
+def isSel : Stmt → Bool
+  | .sel _ _ => true
+  | _ => false
+
+/-- events of one thread: its ops zipped with what was observed; `k` numbers the thread's transactions -/
+def eventsOf (i : Nat) : List COp → List OCall → Nat → Nat → Bool → List Ev
+  | [], _, _, _, _ => []
+  | _ :: _, [], _, _, _ => []
+  | op :: ops, c :: cs, k, ka, inTxn =>
+    let cur := s!"t{i}x{k}"
+    let next := s!"t{i}x{k + 1}"
+    match op with
+    | .begin =>
+      -- `begin` on an open transaction drops it first: the model's `begin` on a new name would leave the old one open,
+      -- so the old transaction is rolled back explicitly
+      (if inTxn then [⟨c.t0, c.t1, cur, Op.rollback cur, none, true, false, false⟩] else []) ++
+      ⟨c.t0, c.t1, next, Op.begin next, some c.out, false, false, false⟩ :: eventsOf i ops cs (k + 1) ka true
+    | .commit =>
+      ⟨c.t0, c.t1, if inTxn then cur else next, Op.commit (if inTxn then cur else next), some c.out, true, false, c.out == "ok"⟩ ::
+        eventsOf i ops cs k ka false
+    | .rollback =>
+      ⟨c.t0, c.t1, if inTxn then cur else next, Op.rollback (if inTxn then cur else next), some c.out, true, false, false⟩ ::
+        eventsOf i ops cs k ka false
+    | .flush => eventsOf i ops cs k ka inTxn
+    | .subq _ => eventsOf i ops cs k ka inTxn
+    | .exec st =>
+      ⟨c.t0, c.t1, if inTxn then cur else next, Op.exec (if inTxn then cur else next) st, some c.out, false,
+        !isSel st && c.out != "ok0" && !isErrTok c.out, false⟩ :: eventsOf i ops cs k ka inTxn
+    | .auto st =>
+      -- an autocommit call is a transaction of its own; an open session transaction of the thread stays open
+      let a := s!"t{i}a{ka}"
+      let evs : List Ev :=
+        if c.out == "conflict" then
+          [⟨c.t0, c.t1, a, Op.begin a, none, false, false, false⟩, ⟨c.t0, c.t1, a, Op.exec a st, none, false, true, false⟩,
+           ⟨c.t0, c.t1, a, Op.commit a, some "conflict", true, false, false⟩]
+        else if isErrTok c.out then
+          [⟨c.t0, c.t1, a, Op.begin a, none, false, false, false⟩, ⟨c.t0, c.t1, a, Op.exec a st, some c.out, false, false, false⟩,
+           ⟨c.t0, c.t1, a, Op.rollback a, none, true, false, false⟩]
+        else
+          [⟨c.t0, c.t1, a, Op.begin a, none, false, false, false⟩,
+           ⟨c.t0, c.t1, a, Op.exec a st, some c.out, false, !isSel st && c.out != "ok0", false⟩,
+           ⟨c.t0, c.t1, a, Op.commit a, some "ok", true, false, true⟩]
+      evs ++ eventsOf i ops cs k (ka + 1) inTxn
+
+def maxTicket (cs : List OCall) : Nat := cs.foldl (fun m c => max m c.t1) 0
+
+/-- the harness reads the final contents after every client thread has finished -/
+def finalEvents (base : Nat) : List (String × String) → Nat → List Ev
+  | [], _ => []
+  | (t, rows) :: rest, k =>
+    let a := s!"final{k}"
+    [⟨base + 2 * k + 1, base + 2 * k + 2, a, Op.begin a, none, false, false, false⟩,
+     ⟨base + 2 * k + 1, base + 2 * k + 2, a, Op.exec a (.sel t none), some rows, false, false, false⟩,
+     ⟨base + 2 * k + 1, base + 2 * k + 2, a, Op.commit a, some "ok", true, false, false⟩] ++ finalEvents base rest (k + 1)
+
+/-- the initial rows are in the committed database before any client thread starts: events of a pseudo thread whose
+    calls precede every ticket -/
+def setupEvents (ops : List Op) : List Ev :=
+  ops.map (fun op => ⟨0, 0, "setup", op, none, false, false, false⟩)
+
+def threadIds (ops : List (Nat × COp)) : List Nat :=
+  ops.foldl (fun acc o => if acc.contains o.1 then acc else acc ++ [o.1]) []
+
+def parseFinal (w : String) : Option (String × String) :=
+  match w.splitOn "=" with
+  | [t, rows] => some (t, rows)
+  | _ => none
+
+/-! ### conflict-freedom of a case (decides whether a serial order is demanded) -/
+
+def stmtTable : Stmt → String
+  | .sel t _ => t | .ins t _ => t | .upd t _ _ _ _ => t | .del t _ => t
+
+def copStmt : COp → Option Stmt
+  | .exec st => some st | .auto st => some st | _ => none
+
+def writesOf (ops : List COp) : List String :=
+  (ops.filterMap copStmt).filterMap (fun st => if isSel st then none else some (stmtTable st))
+
+def touchesOf (ops : List COp) : List String := (ops.filterMap copStmt).map stmtTable
+
+/-- every thread that writes touches only tables that no other writing thread touches; read-only threads are free -/
+def conflictFree (progs : List (List COp)) : Bool :=
+  let writers := progs.filter (fun p => !(writesOf p).isEmpty)
+  let rec go : List (List COp) → Bool
+    | [] => true
+    | p :: rest => rest.all (fun q => !(touchesOf p).any (fun t => (touchesOf q).contains t)) && go rest
+  go writers
+
+def budget : Nat := 8000
+
+def judge (line : String) : String :=
+  match line.splitOn " ==> " with
+  | [caseS, obsS] =>
+    match parseCase caseS with
+    | none => "bad-op"
+    | some (st, ops) =>
+      if hasDup (st.base.tables.map (·.name)) then "bad-setup"
+      else if ops.any (fun o => match o.2 with | .subq t => !(st.base.tables.map (·.name)).contains t | _ => false) then "bad-op"
+      else
+        let obsS := (obsS.splitOn " ## ").headD ""
+        if obsS.startsWith "hang" then "bad hang"
+        else if obsS.startsWith "panic@" then "bad panic"
+        else if obsS.startsWith "abort" then "bad abort"
+        else match obsS.splitOn " | " with
+          | [callsS, finS] =>
+            match words callsS with
+            | [] => "bad malformed-observation"
+            | kind :: callWs =>
+              if kind != "run" && kind != "interr" then "bad malformed-observation " ++ kind
+              else match allSome (callWs.map parseOCall), allSome ((words finS).map parseFinal) with
+                | some calls, some fins =>
+                  let tids0 := threadIds ops
+                  let paired := (tids0.map (fun i => ((ops.filter (·.1 == i)).map (·.2)).zip (calls.filter (·.thread == i)))).flatten
+                  let mustFail (o : COp) : Bool := match o with | .subq _ => true | _ => false
+                  match paired.find? (fun (o, c) => if mustFail o then c.out != "other" else isInternal c.out) with
+                  | some (_, c) => s!"bad internal-error t{c.thread}:{c.out}"
+                  | none =>
+                    match fins.find? (fun f => isInternal f.2 || isErrTok f.2) with
+                    | some f => s!"bad internal-error final:{f.1}={f.2}"
+                    | none =>
+                      let tids := threadIds ops
+                      let progs := tids.map (fun i => (ops.filter (·.1 == i)).map (·.2))
+                      let perThread := tids.map (fun i => (calls.filter (·.thread == i)))
+                      -- every op of every thread must have been answered (flush: by `ok`)
+                      let complete := (progs.zip perThread).all (fun (p, cs) => p.length == cs.length)
+                      let flushOk := (progs.zip perThread).all (fun (p, cs) =>
+                        (p.zip cs).all (fun (o, c) => match o with | .flush => c.out == "ok" | _ => true))
+                      if !complete then "bad malformed-observation incomplete"
+                      else if !flushOk then "bad internal-error flush"
+                      else if fins.map (·.1) != st.base.tables.map (·.name) then "bad malformed-observation finals"
+                      else
+                        let evs := ((tids.zip progs).zip perThread).map (fun ((i, p), cs) => eventsOf i p cs 0 0 false)
+                        let pending : Pending := setupEvents (setupOpsT st) :: evs ++ [finalEvents (maxTicket calls) fins 0]
+                        let cat := st.base.tables
+                        match findSchedule showOutA cat budget pending with
+                        | none =>
+                          let pr := greedyProbe showOutA (effectFree pending) (totalEvents pending) (Spec.State.init cat) pending 0
+                          let stuck := joinWith "," (pr.2.map (fun h => s!"{h.2.txn}@{h.2.t0}-{h.2.t1}"))
+                          let why := s!" ## greedy-placed={pr.1}/{totalEvents pending} pending-heads={stuck}"
+                          if searchExhaustedBudget showOutA cat budget pending then "bad not-serialisable search-budget-exhausted" ++ why
+                          else "bad not-serialisable" ++ why
+                        | some sched =>
+                          if !verify showOutA cat pending sched then "bad not-serialisable verify"
+                          else
+                            let serial := verifySerial showOutA cat pending (serialSchedule pending sched)
+                            let cf := conflictFree progs
+                            if cf && !serial then "bad not-serial"
+                            else s!"ok ## events={totalEvents pending} serial={serial} conflictfree={cf}"
+                | _, _ => "bad malformed-observation"
+          | _ => "bad malformed-observation"
+  | _ => "bad-op"
+
+end AxVerif.Db.ThreadsDrv
+
 namespace AxVerif.Drivers
 
-def threads (_flags : List String) (_line : String) : String := "unimplemented"
+def threads (_flags : List String) (line : String) : String := AxVerif.Db.ThreadsDrv.judge line
 
 end AxVerif.Drivers
